@@ -58,14 +58,17 @@ def mc1(ctx, ctx0):
     ctx.tlc_ok("Socket_MC", r)
     ctx0.cov["mc_states"] = r.distinct
     ctx0.cov["mc_transitions"] = r.generated
-    # sanity of the model: each design switch off must break its invariant
-    for sw, inv in (("CarryDesc", ("StreamInSync", "ImplRefines")), ("CloseOnReject", ("LedgerBalanced",))):
+    # sanity of the model (thorough): each design switch off must break its invariant
+    for sw, inv in () if ctx0.quick() else (("CarryDesc", ("StreamInSync", "ImplRefines")), ("CloseOnReject", ("LedgerBalanced",)),
+                    ("RejectCtrunc", ("ImplRefines",)), ("AbsorbDesc", ("StreamInSync", "ImplRefines"))):
         bad = cfg.replace("%s = TRUE" % sw, "%s = FALSE" % sw)
         b = ctx.tlc("Socket_MC", cfg=bad + "\n", workers=2, timeout=600)
         if b.invariant not in inv:
             raise vlib.Inconclusive("model sanity: %s = FALSE should violate %s, TLC says:\n%s" % (sw, inv, b.tail(20)))
     ctx0.cov["model_detects"] = ["descriptors dropped with a refused message -> StreamInSync",
-                                "descriptors of a refused message not closed -> LedgerBalanced"]
+                                "descriptors of a refused message not closed -> LedgerBalanced",
+                                "MSG_CTRUNC ignored (receiver short of descriptor slots) -> ImplRefines",
+                                "descriptors in a packet dropped for MSG_CTRUNC never reach the decoder -> StreamInSync"]
 
 
 def describe(tr, i):
@@ -76,7 +79,7 @@ def describe(tr, i):
         return "send #%d len=%d val=%d nfds=%d cred=%s typ=%s -> err=%r fdd=%d" % (
             e["id"], e["len"], e["val"], e["nfds"], e["cred"], e["typ"], e["err"], e["fdd"])
     if e["op"] == "recv":
-        return "recv rbuf=%d want=%s -> err=%r n=%d mids=%s handed=%d fdd=%d cloexec=%d/%d same=%d/%d cred=%s" % (
+        return ("free=%d " % e["free"] if e.get("free", -1) >= 0 else "") + "recv rbuf=%d want=%s -> err=%r n=%d mids=%s handed=%d fdd=%d cloexec=%d/%d same=%d/%d cred=%s" % (
             e["rbuf"], e["want"], e["err"], e["n"], e["mids"], e["handed"], e["fdd"], e["nce"], e["handed"],
             e["nsame"], e["handed"], e["cred"])
     return "probe empty=%s" % e["empty"]
@@ -96,17 +99,19 @@ def run(ctx):
     ctx.tlc_ok("Socket_Gen", g)
     cases = ctx.read_ndjson(os.path.join(g.dir, "cases.ndjson"))
     generated = len(cases)
+    press = [c for c in cases if c["part"].startswith("press")]      # receiver short of descriptor slots: all
+    cases = [c for c in cases if not c["part"].startswith("press")]
     if ctx.quick():
         # everything up to 2 operations, a seeded sample of the longer histories
         short = [c for c in cases if len(c["ops"]) <= 3]
         longer = [c for c in cases if len(c["ops"]) > 3]
         ctx.rng.shuffle(longer)
-        cases = short + longer[:1200]
+        cases = short + longer[:1000] + press
     else:
         pairs = [c for c in cases if c["part"] == "pair"]
         hist = [c for c in cases if c["part"] != "pair"]
         ctx.rng.shuffle(hist)
-        cases = pairs + hist[:16000]
+        cases = pairs + hist[:15000] + press
     ctx.rng.shuffle(cases)
     for i, c in enumerate(cases):
         c["id"] = i + 1
@@ -126,23 +131,29 @@ def run(ctx):
         "we are root: forged SCM_CREDENTIALS (pid 1, uid 4242, gid 4343) are accepted; credentials are delivered only with SO_PASSCRED on the receiving end (then the sender's own when none were specified)",
         "Go runtime latitude (not go-sandbox code): an empty payload with control data travels as one zero byte; an empty payload without control data is reported as EOF by net.UnixConn",
         "receive buffers of at least one byte; at most two 64 KiB messages in flight (socket send buffer)",
+        "descriptor-table pressure: the soft RLIMIT_NOFILE of a dedicated driver process is lowered around the receive so that exactly `free` descriptor numbers are unused; the kernel then installs the first `free` descriptors and sets MSG_CTRUNC",
         "framed layer: a value message between Cap - descriptors and Cap may be accepted or refused at the property layer (implementation layer predicts exactly -> drift)",
     ]
     nontriv = sum(1 for t in traces if any(e["op"] == "recv" for e in t["ev"]))
     return dict(evaluations=len(traces), distinct=nontriv,
-                rule="TLC enumerates every send-class x receive-class pair on both layers and every valid history over the reduced classes up to the length bound; thorough runs a seeded 16000-history subset of the depth-4 space plus all pairs; non-trivial = at least one message reached a receive",
+                rule="TLC enumerates every send-class x receive-class pair on both layers and every valid history over the reduced classes up to the length bound; thorough runs a seeded 15000-history subset of the depth-4 space plus all pairs; non-trivial = at least one message reached a receive",
                 exhaustive=False)
 
 
 def execute(ctx, cases):
-    n = min(SHARDS, max(1, len(cases) // 50))
+    # cases that lower RLIMIT_NOFILE around a receive run in a driver process of their own
+    squeezed = [c for c in cases if any(o.get("free", -1) >= 0 for o in c["ops"])]
+    plain = [c for c in cases if not any(o.get("free", -1) >= 0 for o in c["ops"])]
+    n = min(SHARDS, max(1, len(plain) // 50))
+    parts = [plain[k::n] for k in range(n)] + ([squeezed] if squeezed else [])
+    n = len(parts)
     outs, errs = [None] * n, []
 
     def work(k):
         try:
             cf, tf = ctx.path("shard%d" % k, "cases.ndjson"), ctx.path("shard%d" % k, "traces.ndjson")
             with open(cf, "w") as fh:
-                for c in cases[k::n]:
+                for c in parts[k]:
                     fh.write(json.dumps(c) + "\n")
             ctx.vdrive("socket", ["run", cf, tf, ctx.mkdir("shard%d" % k, "files"), str(ctx.seed)], timeout=900)
             outs[k] = ctx.read_ndjson(tf)
@@ -167,7 +178,7 @@ def execute(ctx, cases):
 def validate(ctx, m, traces):
     """TLC replays the traces (several TLC processes side by side, each -workers 1)"""
     n = min(SHARDS, max(1, len(traces) // 200))
-    cfg = consts(m, CarryDesc="TRUE", CloseOnReject="TRUE") + \
+    cfg = consts(m, CarryDesc="TRUE", CloseOnReject="TRUE", RejectCtrunc="TRUE", AbsorbDesc="TRUE") + \
         "SPECIFICATION TSpec\nINVARIANTS InOrder Whole LedgerBalanced\nCONSTRAINT Mark\nPOSTCONDITION Report\nCHECK_DEADLOCK FALSE\n"
     res, errs = [None] * n, []
 
@@ -213,6 +224,8 @@ def judge(ctx, cases, traces, bad, drift):
         key = "%s:%s" % (tr["layer"], why)
         if "refused" in why or why == "recv:nothing-queued":
             key += ":" + (e.get("errc") or "none")
+        if e.get("errc") == "decode" and any(x["op"] == "recv" and x["errc"] == "trunc" for x in tr["ev"][:i]):
+            key += ":after-ctrunc-drop"      # an earlier packet was dropped by the receiving socket layer
         ctx.violation(key, "%s layer, event %d of sequence: %s [%s]" % (tr["layer"], i + 1, describe(tr, i), why),
                       {"case": cases[b["t"]], "trace": tr, "event": i + 1, "why": why})
     if env:
